@@ -79,6 +79,9 @@ def main():
             len(old), sum(len(v["clauses"]) for v in old.values())))
         bad = [r["name"] for r in recs if r["status"] != "proved"]
         print("not fully proved:", bad[:20])
+        for r in recs:
+            if r["status"] != "proved":
+                print("   ", r["name"], r["status"], r.get("notes", [])[:2])
         return 0
     if a.cmd == "check":
         from pyvc import check
